@@ -126,7 +126,7 @@ impl Property for C10 {
     }
     fn cases(&self, tier: Tier) -> usize {
         match tier {
-            Tier::Quick => 240,
+            Tier::Quick => 600,
             Tier::Thorough => 2400,
         }
     }
